@@ -32,6 +32,7 @@ extern void (*sched_on_idle)(void);
 extern void (*sched_on_switch)(const char *why, int from, int to);
 /* called in the running thread at every yield point, before the scheduling decision */
 extern void (*sched_on_point)(const char *why);
+extern int sched_fail_next_create;       /* the next pthread_create of a scenario thread fails with EAGAIN */
 const char *sched_describe(void);
 void sched_io_pre(int is_write, int fd, size_t n);      /* install as vk_hooks.io_pre / io_post: yield points around descriptor I/O */
 void sched_io_post(int is_write, int fd, ssize_t r);
